@@ -234,6 +234,7 @@ def check(model: Model, run: Run) -> None:
                              model.loc(SCHEMA, wsite.node)))
     unescape_single_pass(model, run)
     int_presence_tests(model, run)
+    parsed_numbers_kept(model, run)
     matched_text_is_the_input(model, run, "H11-definition-text-matched-as-given")
     from .c17 import extension_cut_positions
     extension_cut_positions(model, run, "H9-no-delimiter-search-across-quoted-values")
@@ -400,6 +401,38 @@ def keyword_skeleton(model: Model, run: Run, folder: Folder, cname: str) -> None
     if not ok:
         run.fail(Finding("H5-keyword-order", q + ".__str__", f"order={[k for k, _ in kws]}",
                          f"__str__ can emit {''.join(chr(c) for c in w)!r} (keywords in its own order), which the description pattern does not accept", model.loc(SCHEMA, sfi.node)))
+
+
+def parsed_numbers_kept(model: Model, run: Run, rule: str = "H13-parsed-zero-is-a-value") -> None:
+    """H13 / G11: on the parse side of schema.py (from_string and the helpers it is split into), a number that was just
+    converted from the text is not pushed through `<int> or <fallback>` nor dropped under `if <int>:`: number = DIGIT /
+    (LDIGIT 1*DIGIT) includes 0, which such a test turns into the fallback."""
+    from ..anchors import reachable
+    from .c05 import may_raise
+    r = may_raise(model).r
+    seen = {}
+    for cname in CLASSES:
+        fi = model.find_method(f"{SCHEMA}.{cname}", "from_string")
+        if fi is None:
+            continue
+        for f_ in reachable(model, fi, SCHEMA):
+            if not isinstance(f_.node, ast.Lambda):
+                seen[f_.qualname] = f_
+    n = 0
+    for fq, fi in sorted(seen.items()):
+        for x in walk_no_nested(fi.node):
+            if isinstance(x, ast.BoolOp) and isinstance(x.op, ast.Or) and len(x.values) >= 2:
+                left = x.values[0]
+                try:
+                    t = r.type_of(left, fi)
+                except Exception:
+                    continue
+                if t == ("prim", "int") and not isinstance(left, ast.Constant):
+                    n += 1
+                    run.ob(rule, False, {"function": fi.name, "expression": norm(x)[:60]})
+                    run.fail(Finding(rule, fq, norm(x)[:80], f"{fi.name} evaluates `{norm(x)[:70]}`: the left side is an int that is never None, so the fallback is taken exactly "
+                                     "when the number in the text is 0 - a value the grammar allows", model.loc(fi.module, x)))
+    run.ob(rule, True, {"functions": len(seen), "sites": n})
 
 
 def int_presence_tests(model: Model, run: Run) -> None:
